@@ -1614,7 +1614,12 @@ func (db *DB) RequestWithContext(ctx context.Context, req *command.Request, xTim
 			continue
 		}
 
-		ro, err := db.StmtReadOnlyWithConn(ss, conn)
+		// An EXPLAIN is a query whatever it explains (SQLite reports the verdict
+		// of the explained statement), as it is for Store.RORWCount.
+		ro, err := stmt.SqlExplain, error(nil)
+		if !ro {
+			ro, err = db.StmtReadOnlyWithConn(ss, conn)
+		}
 		if err != nil {
 			eqResponse = append(eqResponse, &command.ExecuteQueryResponse{
 				Result: &command.ExecuteQueryResponse_Error{
